@@ -16,12 +16,14 @@ noncomputable instance : Num ℝ where
   log := Real.log
   abs := fun x => |x|
   pow := fun x y => x ^ y
+  exp := Real.exp
 
 variable {𝕜 : Type} [RCLike 𝕜]
 noncomputable instance : XM.Entry ℝ 𝕜 :=
   { conj := star, ofReal := fun x => (x : 𝕜), divReal := fun x r => x / (r : 𝕜), normSq := fun x => RCLike.normSq x,
     re := fun x => RCLike.re x, im := fun x => RCLike.im x, ofParts := fun a b => (a : 𝕜) + (b : 𝕜) * RCLike.I }
 
+@[simp] theorem Num.exp_real (x : ℝ) : (Num.exp x : ℝ) = Real.exp x := rfl
 @[simp] theorem Num.pow_real (x y : ℝ) : (Num.pow x y : ℝ) = x ^ y := rfl
 @[simp] theorem Num.ofNat_real (n : ℕ) : (Num.ofNat n : ℝ) = (n : ℝ) := rfl
 @[simp] theorem Entry.ofReal_eq (x : ℝ) : (Entry.ofReal x : 𝕜) = (x : 𝕜) := rfl
@@ -30,6 +32,10 @@ noncomputable instance : XM.Entry ℝ 𝕜 :=
 @[simp] theorem Entry.re_eq (x : 𝕜) : (Entry.re x : ℝ) = RCLike.re x := rfl
 @[simp] theorem Entry.im_eq (x : 𝕜) : (Entry.im x : ℝ) = RCLike.im x := rfl
 @[simp] theorem Entry.ofParts_eq (a b : ℝ) : (Entry.ofParts a b : 𝕜) = (a : 𝕜) + (b : 𝕜) * RCLike.I := rfl
+theorem re_ofParts (a b : ℝ) : RCLike.re (Entry.ofParts a b : 𝕜) = a := by
+  simp [Entry.ofParts_eq, map_add, RCLike.mul_re]
+theorem im_ofParts (a b : ℝ) : RCLike.im (Entry.ofParts a b : 𝕜) = b * RCLike.im (RCLike.I : 𝕜) := by
+  simp [Entry.ofParts_eq, map_add, RCLike.mul_im]
 @[simp] theorem Conj.conj_eq (x : 𝕜) : (Conj.conj x : 𝕜) = star x := rfl
 
 def XM.Mat.toMatrix {α} {n m} (A : Mat n m α) : Matrix (Fin n) (Fin m) α := fun i j => A.get i j
